@@ -135,7 +135,7 @@ def wall_clock_steps(c, prop="C05"):
     ok, why, res = validate_trace(c, "StampTrace", "StampTrace.cfg", rows, "stamp_%s" % prop, count=1, timeout=300)
     if not ok:
         bad = next((r for r in rows if r["e"] == "recv" and (r["dates"] != 1 or r["clientCopy"] or not r["parsed"] or (not r["own"] and r["claims"] != 1)
-                                                             or not (r["wall"] - 5 <= r["stamp"] <= r["wall"] + 1))), None)
+                                                             or not (r["wall"] - 20 <= r["stamp"] <= r["wall"] + 1))), None)
         c.violation("after the machine's wall clock was stepped the host receives a date that is not the proxy's current time: %s" % bad,
                     {"kind": "date-not-current-after-clock-step", "broken": why.replace("invariant ", "")}, {"rows": rows})
 
